@@ -174,9 +174,8 @@ class HttpParser:
                 # type, remove the original header
                 self.del_header(b'content-encoding')
         # If the request is of type chunked encoding
-        # add post data as chunk
+        # body is kept decoded, build() adds it as chunks
         if self.is_chunked_encoded:
-            body = ChunkParser.to_chunks(body)
             self.del_header(b'content-length')
         else:
             self.add_header(
